@@ -6,6 +6,7 @@ from the current sources with `ast` and emitted as Lean data in Gen/Api.lean.
   heightWriters                            every `<expr>.H = ...` assignment in the package, as "file:function"
   componentWriters                         every assignment to an attribute of a (possibly shared) component object
                                            (`<...>.sim_params.x = `, `.pipe.k = `, `.grout.k = `, `_borehole.r_b -= ` ...)
+  moduleState                              module-level dict/list/set objects, `global` statements, lru_cache/cache decorators
   designCtorArgs                           per Design* call in GHEManager.set_design: the argument expressions
   findDesignRequired                       the slots tested by `all([...])` in GHEManager.find_design
   findDesignCalls                          the calls made by find_design after the test, in source order
@@ -173,6 +174,29 @@ def main(write, HEADER, parse, PKG):
                             if owner in comps:
                                 cw.append(f"{p.name}:{q}:{_expr(s_)}")
     out.append(f"def componentWriters : List String := {_slist(cw)}")
+
+    # ------------------------------------------------------------ module-level mutable state (memo tables, registries) and `global` statements
+    ms = []
+    for p in sorted(PKG.glob("*.py")):
+        tree = ast.parse(p.read_text(), filename=str(p))
+        for n in tree.body:
+            tg = n.targets if isinstance(n, ast.Assign) else [n.target] if isinstance(n, ast.AnnAssign) and n.value is not None else []
+            v = getattr(n, "value", None)
+            mutable = isinstance(v, (ast.Dict, ast.List, ast.Set, ast.ListComp, ast.DictComp, ast.SetComp)) or (
+                isinstance(v, ast.Call) and _dotted(v.func) in ("dict", "list", "set", "defaultdict", "collections.defaultdict", "OrderedDict",
+                                                               "collections.OrderedDict", "deque", "collections.deque"))
+            for t in tg:
+                if mutable and isinstance(t, ast.Name) and t.id != "__all__":
+                    ms.append(f"{p.name}:{t.id}")
+        for n in ast.walk(tree):
+            if isinstance(n, (ast.Global, ast.Nonlocal)) and isinstance(n, ast.Global):
+                ms.append(f"{p.name}:global {','.join(n.names)}")
+            if isinstance(n, ast.FunctionDef):
+                for d in n.decorator_list:
+                    dn = _dotted(d.func) if isinstance(d, ast.Call) else _dotted(d)
+                    if dn and dn.split(".")[-1] in ("lru_cache", "cache", "cached_property"):
+                        ms.append(f"{p.name}:@{dn} {n.name}")
+    out.append(f"def moduleState : List String := {_slist(ms)}")
 
     # ------------------------------------------------------------ manager: set_design, find_design, setters
     manager = parse("manager.py")
